@@ -535,8 +535,10 @@ class UTPM(Ring, RawAlgorithmsMixIn):
             self.data[...] /= rhs
         else:
             retval = self.clone()
+            # rhs may have fewer dimensions than self (UTPM-aware broadcasting, as in __truediv__)
+            rhs_data = UTPM._broadcast_arrays(self.data, rhs.data)[1]
             for d in range(D):
-                retval.data[d,:,...] = 1./ rhs.data[0,:,...] * ( self.data[d,:,...] - numpy.sum(retval.data[:d,:,...] * rhs.data[d:0:-1,:,...], axis=0))
+                retval.data[d,:,...] = 1./ rhs_data[0,:,...] * ( self.data[d,:,...] - numpy.sum(retval.data[:d,:,...] * rhs_data[d:0:-1,:,...], axis=0))
             self.data[...] = retval.data[...]
         return self
 
